@@ -89,14 +89,17 @@ def single_specs():
     out.append([('style', ['a'], ['color:red', 'x:a'], 1)])
     out.append([('style', ['a'], ['x:a'], 1)])
     st = ('style', ['a'], ['x:a'])
-    for names in (['print'], ['screen and (min-width:1px)'], ['print', 'not tv'], ['not tv', 'screen and (min-width:1px)']):
+    for names in (['print'], ['screen and (min-width:1px)'], ['print', 'not tv'], ['not tv', 'screen and (min-width:1px)'],
+                  # queries that share a media type / follow an 'all' query are all kept: only repeated plain types are duplicates
+                  ['screen and (min-width:1px)', 'screen and (max-width:5px)'], ['tv and (color)', 'tv'], ['all and (color)', 'print'],
+                  ['only screen', 'screen and (min-width:1px)'], ['tv', 'print', 'not tv']):
         out.append([('media', names, [st])])
     out.append([('media', ['print'], [st, ('style', ['a>b'], ['color:red'])])])
     out.append([('media', ['print'], [('media', ['not tv'], [st])])])
     out.append([('media', ['print'], [('page', '', ['margin:0 1px'], [])])])
     out.append([('media', ['print'], [])])
     for form in ('string', 'url'):
-        for media in ([], ['print'], ['print', 'not tv'], ['screen and (min-width:1px)']):
+        for media in ([], ['print'], ['print', 'not tv'], ['screen and (min-width:1px)'], ['screen and (min-width:1px)', 'screen and (max-width:5px)'], ['tv and (color)', 'tv']):
             for name in (None, 'n'):
                 out.append([('import', 'x.css', form, media, name)])
     for prefix in ('p', ''):
